@@ -248,6 +248,25 @@ static int do_ann(hwloc_topology_t t, char *line)
     if (!r) r = hwloc_distances_add_commit(t, h, 0);
     free(nm); free(objs); free(vals); return r;
   }
+  if (!strcmp(op, "distn")) {
+    /* distn <type> <n> <type2|-1> <n2> <kind> <seed> <name>: matrix over exactly the first n objects of <type> (and the first n2 of <type2>) */
+    int t1, t2; unsigned long kind; unsigned seed, n1, n2, n, x, y; hwloc_obj_t *objs; hwloc_uint64_t *vals; int r; char *nm;
+    hwloc_distances_add_handle_t h;
+    if (sscanf(line, "%d %u %d %u %lu %u %4095s", &t1, &n1, &t2, &n2, &kind, &seed, s1) != 7) return -1;
+    if ((int)n1 > hwloc_get_nbobjs_by_type(t, (hwloc_obj_type_t)t1)) return -1;
+    if (t2 >= 0 && (int)n2 > hwloc_get_nbobjs_by_type(t, (hwloc_obj_type_t)t2)) return -1;
+    if (t2 < 0) n2 = 0;
+    n = n1 + n2; if (n < 2) return -1;
+    objs = malloc(n * sizeof(*objs)); vals = malloc((size_t)n * n * sizeof(*vals));
+    for (x = 0; x < n1; x++) objs[x] = hwloc_get_obj_by_type(t, (hwloc_obj_type_t)t1, x);
+    for (x = 0; x < n2; x++) objs[n1 + x] = hwloc_get_obj_by_type(t, (hwloc_obj_type_t)t2, x);
+    for (x = 0; x < n; x++) for (y = 0; y < n; y++) vals[(size_t)x * n + y] = x == y ? 10 : 20 + ((x * 7 + y * 3 + seed) % 9) + (x * n + y == n * n - 1 ? 1000000 : 0);
+    nm = unhx(s1, NULL);
+    h = hwloc_distances_add_create(t, nm, kind, 0);
+    r = h ? hwloc_distances_add_values(t, h, n, objs, vals, 0) : -1;
+    if (!r) r = hwloc_distances_add_commit(t, h, 0);
+    free(nm); free(objs); free(vals); return r;
+  }
   if (!strcmp(op, "mattrreg")) {
     unsigned long fl; hwloc_memattr_id_t id; char *n; int r;
     if (sscanf(line, "%4095s %lu", s1, &fl) != 2) return -1;
